@@ -30,7 +30,7 @@ GEN_DIR = os.path.join(ROOT, 'gen')
 VERUS = shutil.which('verus') or '/usr/local/bin/verus'
 
 VF_MESSAGES = [
-    'postcondition not satisfied', 'precondition not satisfied', 'invariant not satisfied',
+    'postcondition not satisfied', 'precondition not satisfied', 'precondition not met', 'invariant not satisfied',
     'assertion failed', 'possible arithmetic underflow/overflow', 'possible division by zero',
     'decreases not satisfied', 'could not prove termination', 'possible bit shift underflow/overflow',
     'unable to prove', 'failed to prove', 'assertion failure', 'loop invariant', 'cannot prove',
@@ -109,6 +109,26 @@ def classify(msg):
     return 'other'
 
 
+def find_decreases_tag(tags, stags, body_t):
+    """the `decreases` clause of the loop whose header is at/after the reported line (the span of a
+    termination failure starts at the loop keyword; the spliced clauses follow it), else the nearest
+    preceding one in the same function"""
+    ln = min(s['line_start'] for s, t in stags if t is body_t)
+    for k in range(ln - 1, min(len(tags), ln + 60)):
+        t = tags[k]
+        if t and t.get('fn') == body_t['fn'] and t.get('kind') in ('decreases', 'fn-decreases'):
+            return t
+        if t and t.get('kind') == 'body' and k > ln - 1:
+            break
+    for k in range(ln - 1, -1, -1):
+        t = tags[k]
+        if t and t.get('fn') and t.get('fn') != body_t['fn']:
+            return None
+        if t and t.get('kind') in ('decreases', 'fn-decreases'):
+            return t
+    return None
+
+
 def analyse_pass1(res, tags, meta):
     """Returns (failures, machinery_errors). failure: dict(obligation, fn, props, message, detail, src, rendered)"""
     failures = []
@@ -160,6 +180,12 @@ def analyse_pass1(res, tags, meta):
             f['fn'] = clause_t['fn']
             f['obligation'] = clause_t['clause']
             f['props'] = clause_t.get('props', [])
+        elif body_t is not None and ('decreases' in lmsg or 'termination' in lmsg) and find_decreases_tag(tags, stags, body_t) is not None:
+            dt = find_decreases_tag(tags, stags, body_t)
+            f['fn'] = dt['fn']
+            f['obligation'] = dt['clause']
+            f['props'] = dt.get('props', [])
+            f['detail'] = 'termination'
         elif body_t is not None:
             f['fn'] = body_t['fn']
             if body_t.get('kind') == 'proof':
